@@ -54,6 +54,26 @@ SCENARIOS.update({
     "large_vs_autopong_plain": {"deflate": False, "threads": {"A": [["send_binary", BIG("A", 0, 70000)]]},
                                 "loop": {"bytes": PINGS2, "idle_waits": 0}, "copts": {"ping_rate": 0}},
 })
+# the event loop INFLATES a compressed message of the server (and answers a ping) while the senders deflate theirs:
+# both directions live in one extension object
+_SRV = deflateref.Peer()
+INCOMING = (rc.B(wire.TEXT, _SRV.compress(b"news from the server, news from the server"), rsv1=1) + rc.B(wire.PING, b"ping-one") +
+            rc.B(wire.BINARY, _SRV.compress(b"more news from the server"), rsv1=1)).hex()
+_SRV = deflateref.Peer(server_nct=True)
+INCOMING_SNCT = (rc.B(wire.TEXT, _SRV.compress(b"news from the server, news from the server"), rsv1=1) + rc.B(wire.PING, b"ping-one") +
+                 rc.B(wire.BINARY, _SRV.compress(b"more news from the server"), rsv1=1)).hex()
+SCENARIOS.update({
+    "inflate_vs_senders_deflate": {"deflate": True, "threads": {"A": [["send_text", P("A", 0)], ["send_text", P("A", 1)]],
+                                                                  "B": [["send_binary", P("B", 0)]]},
+                                   "loop": {"bytes": INCOMING, "idle_waits": 0}, "copts": {"ping_rate": 0}},
+    "inflate_vs_sender_deflate_nct": {"deflate": True, "extension": NCT,
+                                      "threads": {"A": [["send_text", P("A", 0)], ["send_text", P("A", 1)]]},
+                                      "loop": {"bytes": INCOMING, "idle_waits": 0}, "copts": {"ping_rate": 0}},
+    "inflate_vs_sender_deflate_both_nct": {"deflate": True,
+                                           "extension": "permessage-deflate; server_no_context_takeover; client_no_context_takeover",
+                                           "threads": {"A": [["send_text", P("A", 0)], ["send_text", P("A", 1)]]},
+                                           "loop": {"bytes": INCOMING_SNCT, "idle_waits": 0}, "copts": {"ping_rate": 0}},
+})
 BOUND2 = ["2x1_text_plain", "2x1_text_deflate", "2x1_text_binary_deflate", "2x1_text_ping_deflate"]
 FIRST_USE = ["2x1_text_deflate", "2x1_text_deflate_nct"]
 EARLY = 24
